@@ -173,3 +173,48 @@ Theorem C10_accounting_no_delete : forall cf reqs s d u g,
 Proof. exact c10c_accounting_no_delete. Qed.
 Print Assumptions C10_accounting_no_delete.
 
+
+(* ------------------------------------------------------------------------------------------------------------------
+   CONSUMER generations under interleaving (Proofs/C06a.v, over Model/ConcAll.v). *)
+From PV Require Import Proofs.C06a.
+
+(* every transaction of every thread does one of four things to a consumer c: nothing, create it at generation 0, move its
+   generation from g to g + 1, end it *)
+Theorem C10_consumer_step_effect : forall cf c ts i d, let d' := snd (a_step_thread cf i ts d) in
+  csame d d' c \/ ccreate d d' c \/ cincr d d' c \/ cend d d' c.
+Proof. exact c_step_effect. Qed.
+Print Assumptions C10_consumer_step_effect.
+(* ... and which of them depends on the answer of its request: still open afterwards - nothing or the creation; fixed >= 300 in
+   this transaction - nothing; fixed before - nothing or the end (clean-up of what the request created); fixed < 300 in this
+   transaction - nothing, the increment, or the end (a write that leaves c without allocations, DELETE /allocations/{c}) *)
+Theorem C10_consumer_step_by_answer : forall cf t d c,
+  c_outcome (a_resp t) (a_resp (fst (astep cf t d))) d (snd (astep cf t d)) c.
+Proof. exact a_cacct. Qed.
+Print Assumptions C10_consumer_step_by_answer.
+
+(* with the tally tl of the increments of c's generation made by the transactions of each request: a request not answered yet
+   or answered >= 300 has added nothing, a request answered with success 0 or 1; while c exists, final = initial + sum *)
+Theorem C10_consumer_accounting : forall cf reqs s d c,
+  let '(ts, d', tl) := c_run_tally cf c s (map (ainit cf) reqs) d (map (fun _ => 0) reqs) in
+  a_exec cf reqs s d = (ts, d') /\
+  cacctL ts tl (map (fun _ => tt) reqs) /\
+  (forall g, cgen_of d c = Some g -> c_alive cf c s (map (ainit cf) reqs) d -> cgen_of d' c = Some (g + sumZ tl)).
+Proof. exact c06a_accounting. Qed.
+Print Assumptions C10_consumer_accounting.
+Theorem C10_consumer_accounting_per_request : forall ts tl al i t, cacctL ts tl al -> nth_error ts i = Some t ->
+  exists z, nth_error tl i = Some z /\
+            match a_resp t with
+            | None => z = 0
+            | Some r => (300 <= status r /\ z = 0) \/ (status r < 300 /\ 0 <= z <= 1)
+            end.
+Proof. intros ts tl al i t H Hi. destruct (PL_nth unit cacct1 ts tl al H i t Hi) as (z & a & Hz & _ & Hp). exists z. split; [exact Hz|exact Hp]. Qed.
+Print Assumptions C10_consumer_accounting_per_request.
+(* one segment of c's life: whatever happened during s1 (c created, ended, created again at 0), if c exists from the end of s1 to
+   the end of s1 ++ s2 its generation then is the one after s1 plus what the requests added during s2 *)
+Theorem C10_consumer_accounting_segment : forall cf reqs s1 s2 d c,
+  let '(ts1, d1, tl1) := c_run_tally cf c s1 (map (ainit cf) reqs) d (map (fun _ => 0) reqs) in
+  let '(ts2, d2, tl2) := c_run_tally cf c (s1 ++ s2) (map (ainit cf) reqs) d (map (fun _ => 0) reqs) in
+  cacctL ts2 tl2 (map (fun _ => tt) reqs) /\
+  forall g1, cgen_of d1 c = Some g1 -> c_alive cf c s2 ts1 d1 -> cgen_of d2 c = Some (g1 + (sumZ tl2 - sumZ tl1)).
+Proof. exact c06a_accounting_segment. Qed.
+Print Assumptions C10_consumer_accounting_segment.
